@@ -208,6 +208,29 @@ def run(ctx):
                                witness="Insert(table=..., values=[[\"it's\", None]])")
         ctx.count('ast_printer_classes')
     ctx.setcount('repr_sites_in_printers', nrepr)
+    # printers are context-free: no cache of rendered text keyed by Python value equality (1 == 1.0 == True share a key)
+    for ci in model.subclasses('ASTNode'):
+        for mname, fn in ci.methods.items():
+            if mname not in ('get_string', 'to_string', 'to_value', 'render', 'to_tree'):
+                continue
+            keyvars = {}
+            for n in ast.walk(fn):
+                if isinstance(n, ast.Assign) and isinstance(n.targets[0], ast.Name):
+                    keyvars[n.targets[0].id] = n.value
+            for n in ast.walk(fn):
+                key = None
+                if isinstance(n, ast.Subscript) and isinstance(n.ctx, ast.Store) and isinstance(n.value, ast.Name):
+                    key = n.slice
+                if key is None:
+                    continue
+                kexpr = keyvars.get(key.id, key) if isinstance(key, ast.Name) else key
+                txt = norm(kexpr)
+                uses_value = any(isinstance(x, ast.Attribute) and x.attr == 'value' for x in ast.walk(kexpr))
+                typed = 'type(' in txt or '__class__' in txt
+                ctx.ob('C07.no-value-keyed-cache', f'{ci.name}.{mname}:{norm(n)[:40]}', not (uses_value and not typed),
+                       f'{ci.name}.{mname} caches rendered text under the key `{txt[:60]}`: Python treats 1, 1.0 and True (0, 0.0, False) '
+                       f'as the same key, so a constant is printed with the text of a different constant', file=ci.file, line=n.lineno,
+                       witness='Insert(values=[[Constant(1), Constant(True)]]) prints (1, 1)')
     iv = model.get('Insert').methods.get('to_value')
     ctx.need(iv is not None, 'Insert.to_value not found')
     uses_const = any(isinstance(n, ast.Call) and dotted(n.func) == 'Constant' for n in ast.walk(iv))
